@@ -16,7 +16,8 @@ CHECKS = {
             "(ACGT motifs); constructor validation.  The float thresholds are reduced to integers outside Coq (same binary64 "
             "products) and re-derived exactly with Fractions by the oracle.",
             "Coq proof (substring / window lemmas) + extraction-based correspondence", "5 C12"),
-    "C13": ("Theorems for every k >= 1 and every vertex (index<->k-mer bijection, successor/predecessor arithmetic = "
+    "C13": ("(obtain_latters, obtain_formers, get_complete_accessor and connect_valid_graph are REGENERATED from the current source on every "
+            "run as terms of a deep embedding and proved equal to the model: C13_complete_source.)  Theorems for every k >= 1 and every vertex (index<->k-mer bijection, successor/predecessor arithmetic = "
             "shift-append on k-mers, column layout, legality of built graphs), kernel-checked; the successor / predecessor "
             "arithmetic is regenerated from the current source on every run and re-proved equal to the model; tied to dsw by running the "
             "extracted model and the implementation on every vertex of every order up to 5 (7 thorough) plus samples to k = 12.",
@@ -86,12 +87,15 @@ CHECKS = {
             "subscript is out of range, and the look-up counter is at most n(1+16k^2).  Tied to dsw by the correspondence check "
             "(full result incl. the look-up counter) with the implementation under a row-read budget.",
             "Coq proof (termination measure on the scan position, shape invariants) + extraction-based correspondence", "5 C10"),
-    "C11": ("Theorems with the filter as an arbitrary function (so for every user-defined filter): find_vertices marks index i "
+    "C11": ("(find_vertices and connect_valid_graph are REGENERATED from the current source on every run and proved equal to the model, "
+            "for any filter function: C11_valid_graph_source.)  Theorems with the filter as an arbitrary function (so for every user-defined filter): find_vertices marks index i "
             "iff the filter accepts the i-th k-mer and raises ValueError iff none is accepted; connect_valid_graph returns "
             "exactly the induced sub-graph with the column = last nucleotide layout, ValueError for the empty mask; tied to dsw "
             "by the correspondence check with table-driven user filters (documented interface) and LocalBioFilters.",
             "Coq proof + extraction-based correspondence", "5 C11"),
-    "C14": ("Theorems for every legal accessor (any arc subset, k >= 1): latter-map content and round trip, adjacency-matrix "
+    "C14": ("(obtain_vertices, obtain_leaf_vertices, accessor_to_latter_map, remove_useless, latter_map_to_accessor are REGENERATED from the "
+            "current source on every run and proved equal to the model: C14_*_source; the adjacency-matrix pair is not.)  "
+            "Theorems for every legal accessor (any arc subset, k >= 1): latter-map content and round trip, adjacency-matrix "
             "content, round trip and rejection of non-shift arcs, vertex listing, equality of leaf queries from both "
             "representations with the end points of all d-step walks; tied to dsw by the correspondence check on random arc "
             "subsets and illegal single-arc matrices.",
